@@ -299,6 +299,15 @@ func (m *pop3Model) retainGuard(at *ssa.BasicBlock, idx ssa.Value, want bool) bo
 			if !ok || pol != want || !eng.EdgeDominates(b, k, at) {
 				continue
 			}
+			if hc, isCall := v.(*ssa.Call); isCall {
+				// the mark read through a 1-based accessor (s.drop.retained(n))
+				if acc := m.accessor(eng.StaticCallee(hc.Common())); acc != nil && acc.kind == "elem" && eng.SameField(acc.field, m.fRetain) && acc.nParam < len(hc.Call.Args) {
+					if sameIndex(oneBasedIdx{hc.Call.Args[acc.nParam]}, idx) {
+						return true
+					}
+				}
+				continue
+			}
 			u, ok := v.(*ssa.UnOp)
 			if !ok {
 				continue
@@ -333,6 +342,24 @@ func (m *pop3Model) loadedField(v ssa.Value) *types.Var {
 // sameIndex: syntactically equal index expressions (same value, or the same n-1 over the
 // same n through conversions).
 func sameIndex(a, b ssa.Value) bool {
+	// a 1-based number standing for the index n-1 (the argument of an accessor)
+	oa, isA := a.(oneBasedIdx)
+	ob, isB := b.(oneBasedIdx)
+	switch {
+	case isA && isB:
+		return eng.StripConv(oa.Value) == eng.StripConv(ob.Value)
+	case isA || isB:
+		n, other := oa.Value, b
+		if isB {
+			n, other = ob.Value, a
+		}
+		if bo, ok := eng.StripConv(other).(*ssa.BinOp); ok && bo.Op == token.SUB {
+			if k, isC := eng.ConstInt(bo.Y); isC && k == 1 {
+				return eng.StripConv(bo.X) == eng.StripConv(n)
+			}
+		}
+		return false
+	}
 	a, b = eng.StripConv(a), eng.StripConv(b)
 	if a == b {
 		return true
@@ -393,7 +420,21 @@ func checkC13(c *Ctx) {
 			call, ok := x.(*ssa.Call)
 			return ok && eng.StaticCallee(call.Common()) == m.retainReset
 		}
-		if ret := (&eng.Search{Target: eng.IsReturn, Avoid: isReset}).After(in); ret != nil {
+		// the snapshot record built by a constructor that sets the marks itself
+		// (s.drop = newMaildrop(msgs), which ends in d.retainAll())
+		builtWithMarks := false
+		if st, isSt := in.(*ssa.Store); isSt {
+			if cc, isCall := st.Val.(*ssa.Call); isCall {
+				if g := eng.StaticCallee(cc.Common()); g != nil && eng.FuncPkgPath(g) == eng.Mod+"/"+pop3Rel && len(g.Blocks) > 0 {
+					if (&eng.Search{Target: eng.IsReturnOf(g), Avoid: isReset}).FromEntry(g) == nil {
+						builtWithMarks = true
+					}
+				}
+			}
+		}
+		if builtWithMarks {
+			r.Ok("C13/SNAPSHOT", "loader-resets-marks", p.InstrPos(in), "the snapshot record is built by a constructor that sets the marks on every path")
+		} else if ret := (&eng.Search{Target: eng.IsReturn, Avoid: isReset}).After(in); ret != nil {
 			r.Bad("C13/SNAPSHOT", "loader-resets-marks", p.InstrPos(in), "after loading the snapshot a path returns at %s without rebuilding retain/msgCount: marks of a different length than the snapshot", p.InstrPos(ret))
 		} else {
 			r.Ok("C13/SNAPSHOT", "loader-resets-marks", p.InstrPos(in), "every load is followed by the retain reset")
@@ -419,6 +460,29 @@ func checkC13(c *Ctx) {
 	rsts := eng.StoresToField(m.fns, m.fRetain)
 	for _, s := range rsts {
 		okMake := false
+		// a helper that returns make([]T, n) of its own parameter (filled(len(d.messages), true))
+		if hc, isCall := s.Store.Val.(*ssa.Call); isCall {
+			if rets, hg := eng.ReturnedValues(hc, 0); hg != nil && len(rets) > 0 {
+				all := true
+				for _, rv := range rets {
+					mk, isMk := rv.(*ssa.MakeSlice)
+					if !isMk {
+						all = false
+						break
+					}
+					prm, isP := eng.StripConv(mk.Len).(*ssa.Parameter)
+					if !isP || prm.Parent() != hg {
+						all = false
+						break
+					}
+					a := eng.ArgFor(hc, prm)
+					if lx := eng.LenOf(a); a == nil || lx == nil || !eng.SameField(m.loadedField(lx), m.fMessages) {
+						all = false
+					}
+				}
+				okMake = all
+			}
+		}
 		if mk, ok := s.Store.Val.(*ssa.MakeSlice); ok {
 			if lx := eng.LenOf(mk.Len); lx != nil && eng.SameField(m.loadedField(lx), m.fMessages) {
 				okMake = true
@@ -1204,7 +1268,7 @@ func (c *Ctx) c13Views(m *pop3Model) {
 		fn := fn
 		eng.EachInstr(fn, func(in ssa.Instruction) {
 			call, ok := in.(*ssa.Call)
-			if !ok || eng.StaticCallee(call.Common()) != m.send {
+			if !ok || !m.sendLike(eng.StaticCallee(call.Common())) {
 				return
 			}
 			idx := parsedIndexInSprintf(call.Call.Args[len(call.Call.Args)-1], m)
@@ -1299,6 +1363,13 @@ func parsedIndexInSprintf(v ssa.Value, m *pop3Model) ssa.Value {
 		loopIdx[lp.idx] = true
 	}
 	elemIdx := func(x ssa.Value) ssa.Value {
+		if hc, isCall := unwrapIface(x).(*ssa.Call); isCall {
+			// the element through a 1-based accessor (s.drop.message(n))
+			if acc := m.accessor(eng.StaticCallee(hc.Common())); acc != nil && acc.kind == "elem" && eng.SameField(acc.field, m.fMessages) && acc.nParam < len(hc.Call.Args) {
+				return oneBasedIdx{hc.Call.Args[acc.nParam]}
+			}
+			return nil
+		}
 		u, ok := unwrapIface(x).(*ssa.UnOp)
 		if !ok {
 			return nil
@@ -1340,11 +1411,24 @@ func fromParse(v ssa.Value) bool {
 func (m *pop3Model) guardsBound(fn *ssa.Function, nv ssa.Value, at *ssa.BasicBlock) (lower, upper bool) {
 	for _, bb := range fn.Blocks {
 		for e := 0; e < len(bb.Succs) && len(bb.Succs) == 2; e++ {
+			if !eng.EdgeDominates(bb, e, at) {
+				continue
+			}
+			// the upper bound asked of a helper (if !s.drop.holds(n) { …; return }): the helper's
+			// single result is n <= len(messages) of its own parameter
+			if v, pol, okT := eng.CondTruth(bb, e); okT && pol {
+				if hc, isCall := v.(*ssa.Call); isCall {
+					if acc := m.accessor(eng.StaticCallee(hc.Common())); acc != nil && acc.kind == "upper" && acc.nParam < len(hc.Call.Args) && eng.StripConv(hc.Call.Args[acc.nParam]) == nv {
+						upper = true
+					}
+				}
+			}
 			rel, ok := eng.EdgeRel(bb, e)
-			if !ok || !eng.EdgeDominates(bb, e, at) {
+			if !ok {
 				continue
 			}
 			x, y := eng.StripConv(rel.X), eng.StripConv(rel.Y)
+			_ = y
 			if x == nv {
 				if kk, isC := eng.ConstInt(y); isC {
 					if (rel.Op == token.GEQ && kk >= 1) || (rel.Op == token.GTR && kk >= 0) {
@@ -1490,6 +1574,27 @@ func (c *Ctx) c13Index(m *pop3Model) {
 				return
 			}
 			decided, lower, upper := m.boundedNumber(nv, atBlock)
+			if prm, isP := nv.(*ssa.Parameter); !decided && isP {
+				// a 1-based accessor (d.message(n) = d.messages[n-1]): the number is bounded where
+				// the accessor is called — at every call site
+				sites := p.StaticCallSites(prm.Parent())
+				pi := eng.ParamIndex(prm)
+				if len(sites) > 0 && pi >= 0 {
+					decided, lower, upper = true, true, true
+					for _, cs := range sites {
+						if pi >= len(cs.Args) {
+							decided = false
+							break
+						}
+						d2, l2, u2 := m.boundedNumber(eng.StripConv(cs.Args[pi]), cs.Instr.(ssa.Instruction).Block())
+						if !d2 {
+							decided = false
+							break
+						}
+						lower, upper = lower && l2, upper && u2
+					}
+				}
+			}
 			if !decided {
 				r.Undecided("C13/PANIC/index", cons, p.InstrPos(in), "index expression is neither a loop index nor (parsed message number) - k")
 				return
@@ -1539,6 +1644,12 @@ func (m *pop3Model) armsOf(fn *ssa.Function, at *ssa.BasicBlock, kws map[string]
 func (m *pop3Model) accessorOf(fn *ssa.Function, send *ssa.Call, idx ssa.Value) (names map[string]string, found bool, why string) {
 	names = map[string]string{}
 	isElem := func(v ssa.Value) bool {
+		if hc, isCall := unwrapIface(v).(*ssa.Call); isCall {
+			if acc := m.accessor(eng.StaticCallee(hc.Common())); acc != nil && acc.kind == "elem" && eng.SameField(acc.field, m.fMessages) && acc.nParam < len(hc.Call.Args) {
+				return sameIndex(oneBasedIdx{hc.Call.Args[acc.nParam]}, idx)
+			}
+			return false
+		}
 		u, ok := unwrapIface(v).(*ssa.UnOp)
 		if !ok {
 			return false
@@ -1885,4 +1996,92 @@ func snapshotFields(p *eng.Prog) (msgs, retain, count, holder *types.Var) {
 		return
 	}
 	return
+}
+
+
+// ResolveCallee: a handler taken from a package-level table keyed by the session state
+// (stateHandlers[s.state]) is the table's entry for the current state.
+func (m *pop3Model) ResolveCallee(call *ssa.Call, c eng.TSConfig) *ssa.Function {
+	return eng.TableCallee(call.Call.Value, func(idx ssa.Value) (int64, bool) {
+		if eng.SameField(eng.LoadedField(eng.StripConv(idx)), m.fState) {
+			return c.A, true
+		}
+		return 0, false
+	})
+}
+
+
+// oneBasedIdx wraps a 1-based message number n that stands for the index n-1 (the argument of a
+// 1-based accessor), so that it can be compared with explicit n-1 index expressions.
+type oneBasedIdx struct{ ssa.Value }
+
+// pop3Accessor describes a helper of the snapshot record: "elem" returns field[n-1] of its
+// number parameter, "upper" returns n <= len(messages).
+type pop3Accessor struct {
+	kind   string
+	field  *types.Var
+	nParam int
+}
+
+func (m *pop3Model) accessor(g *ssa.Function) *pop3Accessor {
+	if g == nil || len(g.Blocks) != 1 || eng.FuncPkgPath(g) != eng.Mod+"/"+pop3Rel {
+		return nil
+	}
+	ret, ok := g.Blocks[0].Instrs[len(g.Blocks[0].Instrs)-1].(*ssa.Return)
+	if !ok || len(ret.Results) != 1 {
+		return nil
+	}
+	prmOf := func(v ssa.Value) int {
+		if prm, ok := eng.StripConv(v).(*ssa.Parameter); ok && prm.Parent() == g {
+			return eng.ParamIndex(prm)
+		}
+		return -1
+	}
+	rv := ret.Results[0]
+	if u, ok := rv.(*ssa.UnOp); ok && u.Op == token.MUL {
+		if ia, ok := u.X.(*ssa.IndexAddr); ok {
+			f := eng.LoadedField(ia.X)
+			if !eng.SameField(f, m.fMessages) && !eng.SameField(f, m.fRetain) {
+				return nil
+			}
+			if bo, ok := eng.StripConv(ia.Index).(*ssa.BinOp); ok && bo.Op == token.SUB {
+				if k, isC := eng.ConstInt(bo.Y); isC && k == 1 {
+					if pi := prmOf(bo.X); pi >= 0 {
+						return &pop3Accessor{kind: "elem", field: f, nParam: pi}
+					}
+				}
+			}
+		}
+		return nil
+	}
+	if rel, ok := eng.CondRel(rv); ok && rel.Op == token.LEQ {
+		if pi := prmOf(rel.X); pi >= 0 {
+			if lx := eng.LenOf(eng.StripConv(rel.Y)); lx != nil && eng.SameField(eng.LoadedField(lx), m.fMessages) {
+				return &pop3Accessor{kind: "upper", nParam: pi}
+			}
+		}
+	}
+	return nil
+}
+
+
+// sendLike: g writes a reply: the reply writer itself, or a printf-style wrapper of the package
+// around it (sendf(format, args…) = send(fmt.Sprintf(format, args…))).
+func (m *pop3Model) sendLike(g *ssa.Function) bool {
+	if g == nil {
+		return false
+	}
+	if g == m.send {
+		return true
+	}
+	if eng.FuncPkgPath(g) != eng.Mod+"/"+pop3Rel || !g.Signature.Variadic() || len(g.Blocks) == 0 {
+		return false
+	}
+	calls := false
+	eng.EachInstr(g, func(in ssa.Instruction) {
+		if call, ok := in.(*ssa.Call); ok && eng.StaticCallee(call.Common()) == m.send {
+			calls = true
+		}
+	})
+	return calls
 }
